@@ -212,7 +212,7 @@ class Interp:
             "abs": I.b_abs, "sum": I.b_sum, "zip": I.b_zip, "enumerate": I.b_enumerate,
             "list": I.b_list, "tuple": I.b_tuple, "set": I.b_set, "any": I.b_any, "all": I.b_all,
             "str": I.b_str, "bytes": N.TypeMarker("bytes"), "dict": dict, "print": lambda *a, **k: None, "max": I.b_max, "min": I.b_min,
-            "bool": I.b_bool, "super": lambda *a: Opaque("super"), "type": lambda x: Opaque("type"),
+            "bool": I.b_bool, "super": lambda *a: Opaque("super"), "type": I.b_type,
             "None": None, "True": True, "False": False, "ValueError": "ValueError",
             "KeyError": "KeyError", "RuntimeError": "RuntimeError", "TypeError": "TypeError",
             "IndexError": "IndexError", "__name__": "mod", "reversed": lambda x: list(reversed(x)),
@@ -260,6 +260,8 @@ class Interp:
                 return isinstance(x, Delayed)
             if n == "bytes":
                 return isinstance(x, bytes)
+            if n == "integer":
+                return (isinstance(x, int) and not isinstance(x, bool)) is False and isinstance(x, Poly) and bool(x.atoms()) and all(a.sort == "int" for a in x.atoms()) and False
             return False
         if isinstance(t, ClassInfo):
             if not isinstance(x, Obj):
@@ -341,6 +343,15 @@ class Interp:
         if isinstance(x, Poly):
             return T.mk_abs(x)
         return abs(x)
+
+    def b_type(self, x, *more):
+        if more:
+            raise Unsupported("type() with three arguments")
+        if isinstance(x, Arr):
+            return self.np.ndarray if x.kind == "numpy" else self.np.Array
+        if isinstance(x, Obj):
+            return x.cls
+        return Opaque("type(%s)" % type(x).__name__)
 
     def b_divmod(self, a, b):
         if isinstance(a, int) and isinstance(b, int):
@@ -559,6 +570,24 @@ class Interp:
                 return None
             raise Unsupported("call of opaque %s" % f.name)
         if callable(f):
+            if "out" in kwargs and isinstance(getattr(f, "__self__", None), (N.NP, N._UFunc)) or ("out" in kwargs and isinstance(f, N._UFunc)):
+                # ufunc(..., out=a): the result is written into `a` in place (every alias of `a` sees it) and `a` is returned
+                kw = dict(kwargs)
+                out = kw.pop("out")
+                if out is None:
+                    return self.call(f, args, kw)
+                if isinstance(out, tuple) and len(out) == 1:
+                    out = out[0]
+                r = self.call(f, args, kw)
+                if not isinstance(out, Arr) or not isinstance(r, Arr) or r.ndim != out.ndim:
+                    raise Unsupported("out= with a non-array or a broadcasting result")
+                self.inplace_sites.append(self.loc)
+                self.writes.append((self.loc, out.origin, "ufunc-out"))
+                if out.dtype == "int" and r.dtype == "real":
+                    raise PyRaise("UFuncTypeError", "Cannot cast ufunc output from float64 to an integer dtype")
+                out.assign_from(r)
+                self.propagate_view_store(out)
+                return out
             try:
                 return f(*args, **kwargs)
             except TypeError as e:
@@ -705,7 +734,16 @@ class Interp:
         if isinstance(v, Arr):
             if name == "shape":
                 return tuple(v.shape)
-            if name in ("ndim", "T", "size", "dtype"):
+            if name == "dtype":
+                # float arrays are float64; integer arrays of a caller-chosen width have no single dtype in the model
+                if v.dtype == "real":
+                    return self.np.float64
+                if v.dtype == "bool":
+                    return N.TypeMarker("bool")
+                if A.is_narrow(v):
+                    raise Unsupported("dtype of an integer array of unspecified width")
+                return self.np.int64
+            if name in ("ndim", "T", "size"):
                 return getattr(v, name)
             if name in ("sum", "mean", "min", "max", "any", "all", "argmin", "argmax", "transpose", "swapaxes",
                         "reshape", "repeat", "flatten", "ravel", "copy", "astype"):
@@ -898,10 +936,12 @@ class Interp:
             raise Unsupported(str(e))
 
     def compare(self, op, l, r):
-        if isinstance(op, ast.Is):
-            return l is r or (l is None and r is None)
-        if isinstance(op, ast.IsNot):
-            return not (l is r or (l is None and r is None))
+        if isinstance(op, (ast.Is, ast.IsNot)):
+            if (isinstance(l, Opaque) or isinstance(r, Opaque)) and l is not None and r is not None:
+                # the identity of a value the model never looks into cannot be decided
+                raise Unsupported("identity test on an opaque value (%s)" % getattr(l if isinstance(l, Opaque) else r, "name", "?"))
+            same = l is r or (l is None and r is None) or (isinstance(l, N.TypeMarker) and isinstance(r, N.TypeMarker) and l.name == r.name)
+            return same if isinstance(op, ast.Is) else not same
         if isinstance(op, (ast.In, ast.NotIn)):
             if isinstance(r, (list, tuple, set, dict, str)):
                 res = any((l is x) or (type(l) is type(x) and not isinstance(l, (Poly, Arr)) and l == x) for x in r) \
